@@ -5,8 +5,8 @@ CONSTANTS
   DevF9 = FALSE
   DevIIdxAll = FALSE
   DevCreateStale = FALSE
-  MaxDepth = 3
-  RichAt = 1
+  MaxDepth = 2
+  RichAt = 0
   Modes = {"k", "i"}
   FkModes = {0}
   FkCols <- FkColsA
